@@ -774,9 +774,7 @@ Qed.
 
 Lemma id_match_calc_id : forall frepr v, id_match (calc_id frepr v) = true.
 Proof.
-  intros frepr v. destruct (calc_id_shape frepr v) as [Hl Hh]. unfold id_match. rewrite Hl.
-  replace (firstn 32 (calc_id frepr v)) with (calc_id frepr v); [rewrite Hh; reflexivity|].
-  symmetry. rewrite <- Hl. apply firstn_all.
+  intros frepr v. destruct (calc_id_shape frepr v) as [Hl Hh]. unfold id_match. rewrite Hl, Hh. reflexivity.
 Qed.
 
 Section INIT.
@@ -1303,6 +1301,11 @@ Section REKEY.
       assert (S3 : st3 c f3).
       { intro q. rewrite H3. destruct (path_eqb q fname) eqn:Q1; auto. destruct (path_eqb q bak) eqn:Q2; auto.
         rewrite S1, Q2, Q1. reflexivity. }
+      (* the in-memory state point is reloaded from the restored file: a read *)
+      apply crashed_do_inv in H; [|reflexivity]. destruct H as [->|H]; [apply (cinv_rk_st3 c v0 G J Hod0 f3 S3)|].
+      assert (E5 : exec_res f3 (CRead fname) = (f3, FOk (RData c))).
+      { unfold exec_res. cbn [exec]. rewrite S3, path_eqb_refl. reflexivity. }
+      rewrite E5 in H. cbn [fst snd] in H. rewrite J in H.
       assert (Hg : g = f3) by (destruct He as [-> | ->]; cbn in H; apply crashed_raise_inv in H; exact H).
       subst g. apply (cinv_rk_st3 c v0 G J Hod0 f3 S3).
     - (* free destination *)
